@@ -36,6 +36,15 @@ where
         }
     });
 
+    // long prologues and long root tags (a header probe must not depend on a window size)
+    let lp = long_prologue_docs();
+    par_items(ctx, &lp, |b, st| {
+        st.class("long-prologue");
+        if let Err(f) = oracle(b, st) {
+            ctx.report(f);
+        }
+    });
+
     // (b1) truncation at every offset
     let docs = small_docs(ctx, ctx.tier.pick(600, 3000));
     par_items(ctx, &docs, |d, st| {
